@@ -20,7 +20,7 @@ import warnings
 
 import numpy as np
 
-from . import lib
+from . import lib, hist
 from .lib import cbool, cnat, cZ, clist, cshape, copt
 
 HEADER = ('From Coq Require Import List ZArith Bool.\nFrom PM Require Import Base Mask C11Model.\n'
@@ -331,7 +331,24 @@ def lossy_case(rng):
     ref = rng.choice(REFS)
     dig = rng.choice(DIGITS + (NUM_DIGITS_EXTRA if isinstance(ref, float) else []))
     digits_first = False
-    if rng.random() < 0.25:
+    r2 = rng.random()
+    if r2 < 0.12:
+        # pairs of different kinds: a string reference for the object, a number for the derivatives (or the
+        # reverse), digits beyond double precision on the numeric side
+        nder = 1
+        derivs = gen_derivs(rng, cls, shape, numer, mask, nder, finite=True)
+        sref, nref = rng.choice(['fpzip', 'largest', 'mean']), rng.choice([1.0, 1e-3, 50.])
+        hi = rng.choice([16, 17, 18, 20])
+        if rng.random() < 0.6:
+            digits = [[rng.choice([7, 9.5, 'double']), hi], [sref, nref]]
+            # derivative values far below the reference: the absolute precision asked for is finer than
+            # 15.65 significant digits of the reference but coarser than the spacing of the values
+            for dd in derivs:
+                dd['vals'] = [f2p(p2f(v) * 1e-7 * nref) for v in dd['vals']]
+        else:
+            digits = [[hi, rng.choice([7, 9.5, 12])], [nref, sref]]
+            vals = [f2p(p2f(v) * 1e-7 * nref) for v in vals]
+    elif r2 < 0.35:
         ref2 = rng.choice(REFS)
         dig2 = rng.choice(DIGITS)
         digits = [[dig, dig2], [ref, ref2]]
@@ -414,6 +431,9 @@ def gen_cases(rng, tier):
             c = lossy_case(rng)
             c['digits'] = [dig, ref]
             cases.append(c)
+    for c in cases:
+        if c.get('shape') and not isinstance(c.get('mask'), bool) and 'hist' not in c and rng.random() < 0.2:
+            c['hist'] = rng.randrange(1, 5000)
     return cases
 
 
@@ -466,6 +486,10 @@ def build(c, Pm):
         dmask = q._mask_ if d['mask'] == 'same' else False
         dq = cls(darr, dmask, drank=len(dden)) if dden else cls(darr, dmask)
         q.insert_deriv(d['key'], dq)
+    if c.get('hist'):
+        # the object gets its content through a history (cached views asked for, one element masked / unmasked and
+        # assigned back): pickling reads antimask, corners and slicer from the cache (seeded change C11-E)
+        q = hist.reach(Pm, q, 'setitem', c['hist'])
     if c['digits'] is not None and not c.get('digits_first'):
         dg, rf = c['digits']
         q.set_pickle_digits(tuple(dg) if isinstance(dg, list) else dg,
@@ -662,7 +686,9 @@ def lossy_bound(orig_rows, unmasked, digits, ref, isz):
     slack = 4 * np.spacing(maxabs)
     if digits == 'single':
         return np.abs(orig_rows) * 2. ** -23 + 1e-300
-    d = min(float(digits), DOUBLE_DIGITS)
+    # digits are truncated to what double precision supports only when they are RELATIVE to the data; with a
+    # numeric reference the precision asked for is reference * 10**-digits as given (seeded change C11-F)
+    d = float(digits) if isinstance(ref, float) else min(float(digits), DOUBLE_DIGITS)
     if ref == 'fpzip':
         return np.abs(orig_rows) * 10. ** -d * (1 + 1e-9) + 1e-300
     for j in range(isz):
